@@ -351,8 +351,10 @@ def rule_W2(facts, rep):
         if n.get("k") == "match" and hir.simp(n["scrut"]) is w.inner_write:
             for a in n["arms"]:
                 if hir.last_seg(hir.pat_path(a["pat"])) == "Err":
-                    rep.check(hir.diverges(a["body"]), "W4", b["path"], "write:Err-arm-leaves",
-                              "the Err arm of the inner write leaves the function (it cannot fall through into success)", loc(b, a))
+                    stays = [x for x in hir.walk(a["body"]) if x.get("k") in ("continue", "break")]
+                    rep.check(hir.diverges(a["body"]) and not stays, "W4", b["path"], "write:Err-arm-leaves",
+                              "every Err arm of the inner write leaves the function with the error (it cannot fall through into success, nor "
+                              "`continue` / `break` to the next piece: the piece was not delivered, the caller must hear of it)", loc(b, a))
 
 
 def rule_W4(facts, rep):
